@@ -563,11 +563,11 @@ func appendString(dst, src []byte, encode bool) []byte {
 	// TODO: Encode only if length is lower with the string encoded
 
 	n := uint64(len(b))
-	nn := len(dst) - 1 // peek last byte
-	if nn >= 0 && dst[nn] != 0 {
-		dst = append(dst, 0)
-		nn++
-	}
+	// The string starts with an octet of its own. Taking over a trailing zero
+	// of dst would merge the length into whatever came before: the last octet
+	// of the previous string, or of an index.
+	nn := len(dst)
+	dst = append(dst, 0)
 
 	dst = appendInt(dst, 7, n)
 	dst = append(dst, b...)
@@ -626,7 +626,7 @@ func (hp *HPACK) AppendHeader(dst []byte, hf *HeaderField, store bool) []byte {
 				}
 			}
 		} else if !store || hp.DisableDynamicTable { // with or without indexing
-			dst = append(dst, 0, 0)
+			dst = append(dst, 0)
 		} else {
 			dst = append(dst, literalByte)
 			hp.addDynamic(hf)
